@@ -151,11 +151,13 @@ def dfa_from_table(D: DFA, table: Mapping[Tuple[int, int], bool]) -> DFA:
                     Q_[i].add(q[j])
                     R.add(q[j])
 
-    Q_r: Set[State] = set(map(state, Q_))
-    F_r: Set[State] = set(state(Q_[i]) for i in range(n) if q[i] in F)
+    Q_r: Set[State] = set(state(Q_i) for Q_i in Q_ if Q_i)
+    F_r: Set[State] = set(state(Q_[i]) for i in range(n) if Q_[i] and q[i] in F)
     q_r = state(next(Q_i for Q_i in Q_ if q0 in Q_i))
     delta_r: MutableMapping[Tuple[State, Symbol], State] = {}
     for i in range(n):
+        if not Q_[i]:
+            continue
         Q_i = state(Q_[i])
         for a in Sigma:
             q1 = delta[q[i], a]
